@@ -151,6 +151,11 @@ func (s *ownSummary) ownedValues(fn *ssa.Function, d map[ssa.Value]bool) map[ssa
 					if callee := x.Call.StaticCallee(); callee != nil && len(x.Call.Args) > 0 && d[x.Call.Args[0]] && callee.Signature.Recv() != nil && callee.Signature.Results().Len() == 1 {
 						hit = s.returnsOwned(callee)[0]
 					}
+					// append(owned, ...) writes into the owned array while it has room and returns it:
+					// append(b[:0], b...) looks like a copy and is the buffer itself
+					if bi, ok := x.Call.Value.(*ssa.Builtin); ok && bi.Name() == "append" && len(x.Call.Args) > 0 && o[x.Call.Args[0]] {
+						hit = true
+					}
 				}
 				if hit {
 					o[v] = true
@@ -215,7 +220,7 @@ func ruleReturnAlias(prog *Program, rep *Report, prop string, pkgs ...string) {
 	if len(pkgs) == 0 {
 		pkgs = []string{"oj", "sen", "pretty"}
 	}
-	rep.Rules = append(rep.Rules, "D-alias: no package-level function of oj, sen or pretty returns memory owned by a Writer (a slice loaded from a Writer field, a reslice of it, or the result of a Writer method that returns such memory): never for a Writer taken from a sync.Pool, and for a caller-supplied Writer only where the documentation says so; a copying conversion (string(b), make+copy, append to a fresh slice) breaks the ownership")
+	rep.Rules = append(rep.Rules, "D-alias: no package-level function of oj, sen or pretty returns memory owned by a Writer (a slice loaded from a Writer field, a reslice of it, or the result of a Writer method that returns such memory): never for a Writer taken from a sync.Pool, and for a caller-supplied Writer only where the documentation says so; a copying conversion (string(b), make+copy, append to a fresh slice) breaks the ownership; append to an owned slice - append(b[:0], b...) - does not")
 	sum := &ownSummary{}
 	checked := 0
 	for _, rel := range pkgs {
